@@ -376,7 +376,7 @@ def cases(tier, seed):
                                 continue
                             add(model, cont, conf, "fit", f, field=fld)
                     if is_cross:
-                        for how in ("y_shorter", "x_shorter", "y_longer"):
+                        for how in ("y_shorter", "x_shorter", "y_longer", "y_shorter_x_tail_nan", "x_shorter_y_tail_nan", "y_shorter_x_head_nan"):
                             add(model, cont, conf, "fit", dict(fault="sample_count_mismatch", how=how))
                         add(model, cont, conf, "fit", dict(fault="sample_dim", how="renamed_in_Y"))
                     if is_multi:
@@ -1019,6 +1019,18 @@ def apply_fault(call, case, kfit=None):
                 call.fit["Y"] = cut(call.fit["Y"])
             elif f["how"] == "x_shorter":
                 call.fit["X"] = cut(call.fit["X"])
+            elif f["how"].endswith("_nan"):
+                # the counts differ AND the longer field's surplus sample is entirely missing (an unfilled time step)
+                short, long_ = ("Y", "X") if f["how"].startswith("y_shorter") else ("X", "Y")
+                pos = 0 if "head" in f["how"] else N_FIT - 1
+
+                def blank(x):
+                    x = x.astype(float).copy()
+                    x[dict(time=pos)] = np.nan
+                    return x
+
+                call.fit[long_] = _map_all(call.fit[long_], blank)
+                call.fit[short] = _map_all(call.fit[short], (lambda x: x.isel(time=slice(1, N_FIT))) if pos == 0 else (lambda x: x.isel(time=slice(0, N_FIT - 1))))
             else:
                 call.fit["X"] = _map_all(call.fit["X"], lambda x: x.isel(time=slice(0, N_FIT - 2)))
         else:
